@@ -20,6 +20,40 @@ from ..utils import apply_blockwise
 from .base import BaseBlockCodeEncoder
 
 
+def _gf2_row_reduce(matrix: torch.Tensor) -> Tuple[torch.Tensor, torch.Tensor, list]:
+    """Gauss-Jordan elimination over GF(2).
+
+    Args:
+        matrix: Binary matrix of shape (k, n)
+
+    Returns:
+        Tuple of the reduced row echelon form R (k, n), the transform T (k, k) with
+        T @ matrix = R (mod 2), and the list of pivot columns (one per non-zero row of R)
+    """
+    k, n = matrix.shape
+    reduced = (matrix.to(torch.int64) % 2).clone()
+    transform = torch.eye(k, dtype=torch.int64)
+    pivots = []
+    row = 0
+    for col in range(n):
+        if row == k:
+            break
+        nonzero = torch.nonzero(reduced[row:, col]).view(-1)
+        if nonzero.numel() == 0:
+            continue
+        pivot = row + int(nonzero[0])
+        if pivot != row:
+            reduced[[row, pivot]] = reduced[[pivot, row]]
+            transform[[row, pivot]] = transform[[pivot, row]]
+        for other in range(k):
+            if other != row and reduced[other, col] == 1:
+                reduced[other] ^= reduced[row]
+                transform[other] ^= transform[row]
+        pivots.append(col)
+        row += 1
+    return reduced, transform, pivots
+
+
 def compute_null_space_matrix(matrix: torch.Tensor) -> torch.Tensor:
     """Compute the null space matrix of the input matrix.
 
@@ -37,6 +71,7 @@ def compute_null_space_matrix(matrix: torch.Tensor) -> torch.Tensor:
     # First try to find if we have a systematic form: G = [I_k | P]
     is_systematic = True
     identity_detected = set()
+    identity_column = {}
     for i in range(k):
         found_identity_column = False
         for j in range(n):
@@ -44,6 +79,7 @@ def compute_null_space_matrix(matrix: torch.Tensor) -> torch.Tensor:
             if col[i] == 1.0 and torch.sum(col) == 1.0:
                 # This is an identity column
                 identity_detected.add(j)
+                identity_column[i] = j
                 found_identity_column = True
                 break
         if not found_identity_column:
@@ -66,7 +102,7 @@ def compute_null_space_matrix(matrix: torch.Tensor) -> torch.Tensor:
         # Fill in the P^T part
         for i in range(n - k):
             for j in range(k):
-                H[i, list(identity_detected)[j]] = parity_part[j, i]
+                H[i, identity_column[j]] = parity_part[j, i]
 
         # Fill in the identity part
         for i, col_idx in enumerate(parity_columns):
@@ -78,58 +114,16 @@ def compute_null_space_matrix(matrix: torch.Tensor) -> torch.Tensor:
             # Convert back to original dtype before returning
             return H.to(matrix.dtype)
 
-    # If systematic form wasn't detected or verification failed, use SVD
-    U, S, V = torch.linalg.svd(matrix_float, full_matrices=True)
-
-    # Count non-zero singular values with small tolerance
-    tol = S.max() * max(matrix.size()) * torch.finfo(matrix_float.dtype).eps
-    rank = torch.sum(S > tol).item()
-
-    # The null space is spanned by the right singular vectors
-    # corresponding to the zero singular values
-    if rank < V.size(1):
-        null_space = V[rank:].clone()
-
-        # In GF(2), we need to ensure each element is binary
-        # Round to the nearest binary value
-        null_space = (null_space.abs() > 0.5).float()
-
-        # Ensure we have linearly independent rows
-        # and the result satisfies GH^T = 0
-        if null_space.size(0) > 0:
-            # Remove linearly dependent rows
-            reduced_null_space = torch.zeros((min(n - k, null_space.size(0)), n), dtype=matrix.dtype)
-            row_idx = 0
-
-            for i in range(null_space.size(0)):
-                # Check if current row is linearly independent from existing rows
-                if row_idx == 0 or not torch.all(torch.matmul(null_space[i], reduced_null_space[:row_idx].t().float()) % 2 == 0):
-                    if row_idx < reduced_null_space.size(0):
-                        reduced_null_space[row_idx] = null_space[i]
-                        row_idx += 1
-
-                # If we've found enough rows, we can stop
-                if row_idx == n - k:
-                    break
-
-            # Verify that the null space satisfies GH^T = 0
-            verification = torch.matmul(matrix_float, reduced_null_space.t()) % 2
-            if torch.all(verification < 0.01):  # Allow small numerical error
-                return reduced_null_space[:row_idx]
-
-    # If all else fails, fall back to a direct construction for common cases
-
-    # Repetition codes: generator matrix is a single row of all ones
-    if k == 1 and torch.all(matrix == 1.0):
-        # For a repetition code, check matrix verifies adjacent bits are equal
-        H = torch.zeros((n - 1, n), dtype=matrix.dtype)
-        for i in range(n - 1):
-            H[i, i] = 1.0
-            H[i, i + 1] = 1.0
-        return H
-
-    # If we couldn't find a valid null space, return an empty matrix
-    return torch.zeros((n - k, n), dtype=matrix.dtype)
+    # Otherwise row-reduce over GF(2): one basis vector per free (non-pivot) column,
+    # with the entries of the reduced matrix at the pivot columns
+    reduced, _, pivots = _gf2_row_reduce(matrix)
+    free_columns = [j for j in range(n) if j not in pivots]
+    null_space = torch.zeros((len(free_columns), n), dtype=matrix.dtype)
+    for i, free in enumerate(free_columns):
+        null_space[i, free] = 1
+        for r, pivot in enumerate(pivots):
+            null_space[i, pivot] = reduced[r, free].to(matrix.dtype)
+    return null_space
 
 
 def compute_reduced_row_echelon_form(matrix: torch.Tensor) -> torch.Tensor:
